@@ -103,7 +103,9 @@ pub fn run_hostile(a: &Args) {
         let direct = match kind { 3 if case == 3 || case == 9 => Some(DirectAuxvDumpInfo { program_header_count: 2, program_header_address: chain, linux_gate_address: 0, entry_address: 0 }),
                                   3 => Some(DirectAuxvDumpInfo { program_header_count: *rng.pick(&[2u64, 0, 1, 100000, u64::MAX, u64::MAX / 56 + 1]), program_header_address: *rng.pick(&[chain, chain + 1, chain + 8192 - 40, 0x10, u64::MAX - 8]), linux_gate_address: *rng.pick(&[0u64, 1, u64::MAX]), entry_address: *rng.pick(&[0u64, u64::MAX, anon0]) }),
                                   4 => Some(DirectAuxvDumpInfo { program_header_count: rng.next(), program_header_address: rng.next(), linux_gate_address: rng.next(), entry_address: rng.next() }), _ => None };
-        let desc = format!("kind {kind} crash {use_crash} sp {sp:x} ip {ip:x} limit {limit} sanitize {sanitize} skip {skip} direct {direct:?}");
+        // the caller's stop timeout at its extremes: "wait for ever" (the largest duration) and "do not wait"
+        let stop_to = match case % 7 { 3 => Some(std::time::Duration::MAX), 5 => Some(std::time::Duration::from_nanos(1)), 6 if case % 2 == 0 => Some(std::time::Duration::ZERO), _ => None };
+        let desc = format!("kind {kind} crash {use_crash} sp {sp:x} ip {ip:x} limit {limit} sanitize {sanitize} skip {skip} direct {direct:?} stop_timeout {stop_to:?}");
         let ino = unsafe { libc::inotify_init1(libc::IN_NONBLOCK) };
         for p in &dev_files { let c = std::ffi::CString::new(p.clone()).unwrap(); unsafe { libc::inotify_add_watch(ino, c.as_ptr(), libc::IN_OPEN | libc::IN_ACCESS); } }
         let fifo2 = dev_fifo.clone();
@@ -115,6 +117,10 @@ pub fn run_hostile(a: &Args) {
             if limit { w.set_minidump_size_limit(1); } if sanitize { w.sanitize_stack(); }
             if skip { w.skip_stacks_if_mapping_unreferenced(); w.set_principal_mapping_address(ip as usize); }
             if let Some(d) = d2 { w.set_direct_auxv_dump_info(d); }
+            if let Some(t) = stop_to { w.stop_timeout(t); }
+            // application regions the caller got wrong: at the very top of the address space, of absurd length, empty, across a mapping end
+            if case % 5 == 2 { w.set_app_memory(vec![minidump_writer::app_memory::AppMemory { ptr: usize::MAX - 3, length: 16 }]); }
+            if case % 5 == 4 { w.set_app_memory(vec![minidump_writer::app_memory::AppMemory { ptr: anon0 as usize, length: 0 }, minidump_writer::app_memory::AppMemory { ptr: anon0 as usize + 3 * 4096 - 8, length: 1 << 46 }]); }
             if let Some(f) = &fifo2 {
                 use minidump_writer::maps_reader::{MappingEntry, MappingInfo, SystemMappingInfo};
                 w.set_user_mapping_list(vec![MappingEntry { mapping: MappingInfo { start_address: 0x1000_0000, size: 0x1000, system_mapping_info: SystemMappingInfo { start_address: 0x1000_0000, end_address: 0x1000_1000 }, offset: 0,
@@ -147,5 +153,5 @@ pub fn run_hostile(a: &Args) {
         for p in &dev_files { let _ = std::fs::remove_file(p); }
     }
     out.assumptions.push("bounded time is observed with an 8 s watchdog around each dump (run in a forked child); panics inside dependencies count as panics of the dump".into());
-    out.finish(&a.out, "hostile worlds, each dumped in a forked child under a watchdog: crash-context stack/instruction pointers at 2^64-8, 0, inside a 300-page permissionless region, at mapping ends, random, in [vsyscall]; threads with stack pointers at odd addresses and null-SP helpers; executable mappings of corrupted ELF images with version-like / non-ASCII names; synthetic linker chains (cyclic, cut) with hostile direct-auxv values (AT_PHNUM 0 / 100000 / 2^64-1, AT_PHDR misaligned / unmapped / near 2^64); random direct auxv; size limit / sanitize / skip-unreferenced mixes; one world maps a file named /SYSVab (recorded finding K2). Required: the dump returns a value");
+    out.finish(&a.out, "hostile worlds, each dumped in a forked child under a watchdog: crash-context stack/instruction pointers at 2^64-8, 0, inside a 300-page permissionless region, at mapping ends, random, in [vsyscall]; threads with stack pointers at odd addresses and null-SP helpers; executable mappings of corrupted ELF images with version-like / non-ASCII names; synthetic linker chains (cyclic, cut) with hostile direct-auxv values (AT_PHNUM 0 / 100000 / 2^64-1, AT_PHDR misaligned / unmapped / near 2^64); random direct auxv; size limit / sanitize / skip-unreferenced mixes; stop timeouts at the extremes (largest duration, one nanosecond, zero); application regions at the top of the address space / empty / of absurd length; one world maps a file named /SYSVab (recorded finding K2). Required: the dump returns a value");
 }
